@@ -118,6 +118,13 @@ func c06Enumerate(tier string, emit func(*eng.Case)) {
 		}
 	}
 	rec(0, map[int]int{}, 0)
+	// documents of the other checks; those that come without a page URL get one
+	crossEmit(tier, "xurls", 1, func(c *eng.Case) {
+		if c.URL == "" {
+			c.URL = c06PageURLs[0]
+		}
+		emit(c)
+	})
 }
 
 var rxMarker = regexp.MustCompile(`u\d+z`)
@@ -239,6 +246,35 @@ func c06Check(c *eng.Case) *eng.Outcome {
 			}
 		}
 	}
+	if c.Kind == "xurls" {
+		// documents without markers: every output URL must be what the rule gives for some URL
+		// of the source
+		wants := map[string]string{}
+		for _, u := range urlUses(a.Doc, true) {
+			w, pass := c06Expected(u.val, base)
+			if _, dup := wants[w]; !dup {
+				wants[w] = u.val
+			}
+			if !pass {
+				relSeen++
+			}
+		}
+		member := func(got, where string) {
+			if _, ok := wants[got]; !ok {
+				o.V("url-not-from-source:"+where, "%s: %q is not the resolution of any URL attribute of the source against %s; doc: %s", where, got, c.URL, c.Get("doc"))
+			}
+		}
+		for _, u := range urlUses(a.Res.Node, false) {
+			// the element kinds of the statement: a[href], img/source/track/video[src], srcset, video[poster]
+			switch u.attr + "@" + u.node.Data {
+			case "href@a", "src@img", "src@source", "src@track", "src@video", "srcset@img", "srcset@source", "poster@video":
+				member(u.val, u.attr+"@"+u.node.Data)
+			}
+		}
+		for _, u := range a.Res.ContentImages {
+			member(u, "ContentImages")
+		}
+	}
 	for _, u := range urlUses(a.Res.Node, false) {
 		judge(u.val, u.attr+"@"+u.node.Data+"/"+c05Context(u.node))
 	}
@@ -255,16 +291,17 @@ func init() {
 		ID:        "C06",
 		DesignRef: "§5 C06",
 		Rule: "host document with 21 URL-carrying positions (anchors wrapping a single inline element, block-styled anchors that become the root of their text block, a video with only a poster, a[href] in paragraph/list item/caption/table cell; img src, two srcset candidates, lazy data-src, picture source srcset + img, figure img, video src/poster, video source/track src, img in table), each defaulting to an absolute URL with a unique marker; " +
-			"every assignment of <= 2 (quick) / <= 3 (thorough) positions to one of 17 non-default reference forms (relative references that embed another absolute URL, paths containing commas, path-relative, ./, ../, root-relative, scheme-relative, query-only, fragment, data:, javascript:, https absolute, unparseable, relative with query, empty) x 4 page URLs. " +
+			"every assignment of <= 2 (quick) / <= 3 (thorough) positions to one of 17 non-default reference forms (relative references that embed another absolute URL, paths containing commas, path-relative, ./, ../, root-relative, scheme-relative, query-only, fragment, data:, javascript:, https absolute, unparseable, relative with query, empty) x 4 page URLs." + crossRule + " (there, without markers: every URL of the output must be what the rule gives for some URL attribute of the source) " +
 			"Oracle: each URL attribute/srcset candidate of result.Node outside embed placeholders and each ContentImages entry, traced to its original by marker, equals the statement's rule (pass-through or RFC 3986 resolution against the page URL) and is absolute when resolved. Non-trivial = >= 1 relative reference reached the output.",
 		Enumerate: c06Enumerate,
 		Check:     c06Check,
+		Prepare:   func(tier string) { CrossCorpus(tier) },
 		Bounds: func(tier string) map[string]any {
 			k := 2
 			if tier == "thorough" {
 				k = 3
 			}
-			return map[string]any{"positions": len(c06Positions), "forms": len(c06Forms), "max_non_default": k, "page_urls": len(c06PageURLs)}
+			return map[string]any{"positions": len(c06Positions), "forms": len(c06Forms), "max_non_default": k, "page_urls": len(c06PageURLs), "cross": crossBounds(tier)}
 		},
 	})
 }
